@@ -835,6 +835,10 @@ func analyzeToSlice(p *load.Program, r *Roles, res *UnitResult, depth int) {
 		out := rt.Vals[0]
 		ms, _ := rt.State.MonByName(e, "copyloop").(copyLoopState)
 		isNil := c.IsNil(v)
+		if isNil == eng.TriUnknown {
+			col.Check("C15.R6", "ToSlice:nil", false, rt.Pos, "a path of ToSlice returns "+out.Pretty()+" without having established whether the argument is nil (nil must become an empty slice, not a one-element slice)", nil)
+			continue
+		}
 		switch {
 		case isNil == eng.TriTrue:
 			ok := e.LenTerm(rt.State, out) == eng.ConstInt(0) && c.IsNil(out) == eng.TriFalse
